@@ -681,4 +681,17 @@ example :
     the offending value is -/
 theorem message_no_script (s : MsgSite) : messageScriptCalls s = Spec.messageScriptCalls s := rfl
 
+/-! ## the class of an engine error does not depend on the global binding -/
+
+/-- whatever a script did to the global name of a native error constructor (reassigned it to another function or to
+    a non-function, deleted it), an error of that class raised by the engine afterwards has the original class: name,
+    `instanceof` the original constructor and Error – the §15.11 table of `error_class` holds after every history -/
+theorem class_independent_of_global_binding (h : Rebind) (k : ErrKind) :
+    caughtAfter h k = caught k ∧ Spec.caughtAfter h k = Spec.caught k ∧
+    (caughtAfter h k).name = Spec.errClass k ∧ (caughtAfter h k).instanceOf = [Spec.errClass k, "Error"] ∧
+    ((errTable k).2 = true → caughtAfter h k = Spec.caughtAfter h k) := by
+  refine ⟨rfl, rfl, (error_class k).1, (error_class k).2, ?_⟩
+  intro hm
+  exact error_class_full k hm
+
 end OttoVerif.C19.Thm
